@@ -65,10 +65,10 @@ fn eff(c: &CardSpec) -> i64 {
 }
 
 /// What one stored card looks like, field by field (the fields a caller can set).
-fn card_line(c: &MemoryCard) -> String {
+pub fn card_line(c: &MemoryCard) -> String {
     format!("{}|{}|{}|{}|{:?}|{:?}|{:?}|{:?}|{}|{}", c.id, c.entity, c.slot, c.value, c.kind, c.event_date, c.document_date, c.version_relation, c.source_frame_id, c.created_at)
 }
-fn spec_line(id: u64, c: &CardSpec) -> String {
+pub fn spec_line(id: u64, c: &CardSpec) -> String {
     format!("{}|{}|{}|{}|{:?}|{:?}|{:?}|{:?}|{}|{}", id, c.entity, c.slot, c.value, kind_of(c.kind), c.event_date, c.document_date, rel_of(c.relation), c.source, c.created_at)
 }
 
@@ -210,15 +210,6 @@ pub fn check_tracks(w: &mut World, i: usize, at: &str) {
     let mem = w.mem.as_ref().unwrap();
     let mut v: Vec<(&'static str, &'static str, String)> = Vec::new();
     let cards: Vec<MemoryCard> = mem.memories().cards().to_vec();
-    // ---- C27: the caller-made cards, in order, unchanged
-    if !w.model.cards.is_empty() || cards.iter().any(|c| c.engine == SIM_ENGINE) {
-        let got: Vec<String> = cards.iter().filter(|c| c.engine == SIM_ENGINE).map(card_line).collect();
-        let exp: Vec<String> = w.model.cards.iter().map(|(id, s)| spec_line(*id, s)).collect();
-        if got != exp {
-            let d = got.iter().zip(exp.iter()).position(|(a, b)| a != b).unwrap_or(got.len().min(exp.len()));
-            v.push(("C27", "card-set-unchanged", format!("[{at}] {} caller-made cards in the file, {} in the model; first difference at {d}: {:?} vs {:?}", got.len(), exp.len(), got.get(d), exp.get(d))));
-        }
-    }
     // ---- C27: the mesh
     if !w.model.mesh_nodes.is_empty() || mem.mesh_node_count() > 0 {
         let mesh = mem.logic_mesh();
@@ -289,7 +280,7 @@ pub fn check_tracks(w: &mut World, i: usize, at: &str) {
 const ENT: &[&str] = &["user", "alice", "project.memvid"];
 const SLOT: &[&str] = &["employer", "location", "food"];
 
-fn gen_card(r: &mut Rng, times: &[i64], n: u64) -> CardSpec {
+pub fn gen_card(r: &mut Rng, times: &[i64], n: u64) -> CardSpec {
     let t = *r.pickv(times);
     CardSpec {
         entity: r.pick(ENT).to_string(),
